@@ -91,6 +91,24 @@ func genSpecials(r *Rng) []special {
 `
 	}
 	out = append(out, special{Name: "callee-same-package-name-swap", Family: "callee-swap", Files: files2, P: samename("strict"), Q: samename("lax")})
+	// 2c. float comparison written as the opposite test with exchanged branches: NOT equivalent (NaN)
+	fl := func(flipped bool) string {
+		body := "\tif x >= y {\n\t\treturn 1\n\t}\n\treturn 2\n"
+		if flipped {
+			body = "\tif x < y {\n\t\treturn 2\n\t}\n\treturn 1\n"
+		}
+		return specialHeader("math") + "func Special(a int, b int, s string, xs []int) int {\n\tx, y := float64(a), float64(b)\n\tif a == 0 {\n\t\tx = math.NaN()\n\t}\n" + body + "}\n"
+	}
+	out = append(out, special{Name: "float-test-flipped-nan", Family: "float-flip", P: fl(false), Q: fl(true)})
+	// 2d. string concatenation operands exchanged (+ is not commutative on strings)
+	sc := func(swap bool) string {
+		e := "s + \"-\" + t"
+		if swap {
+			e = "t + \"-\" + s"
+		}
+		return specialHeader() + "func Special(a int, b int, s string, xs []int) int {\n\tt := \"k\"\n\tif a > b {\n\t\tt = \"longer\"\n\t}\n\tu := " + e + "\n\tif len(u) > 0 && u[0] == 'k' {\n\t\treturn 1\n\t}\n\treturn len(u)\n}\n"
+	}
+	out = append(out, special{Name: "string-concat-operands-exchanged", Family: "string-commute", P: sc(false), Q: sc(true)})
 	// 3. exchanged select cases (only the first channel is ever ready: deterministic natively)
 	sel := func(first, second string) string {
 		return specialHeader() + fmt.Sprintf(`func Special(a int, b int, s string, xs []int) int {
